@@ -286,6 +286,13 @@ func (r *Raft) onInstallSnapRequest(req *installSnapReq, c *conn) (rpcResult, er
 	r.setState(Follower)
 	r.setLeader(req.src)
 
+	// delayed or duplicate request: everything the snapshot
+	// covers is already committed here. installing it would
+	// discard newer committed entries and move commitIndex back
+	if req.lastIndex <= r.commitIndex {
+		return drain(success, nil)
+	}
+
 	// store snapshot
 	sink, err := r.snaps.new(req.lastIndex, req.lastTerm, req.lastConfig)
 	if err != nil {
